@@ -2,6 +2,7 @@ package models
 
 import (
 	"bytes"
+	"errors"
 	"io"
 
 	"github.com/bbva/qed/storage"
@@ -33,6 +34,9 @@ type MemStore struct {
 	// It survives restarts and crashes of the store (Raft persists an entry before
 	// it is applied); a store restored from a backup starts with a new, empty log.
 	Covered uint64
+	// FailWrite >= 0: the FailWrite-th Mutate from now (0 = the next one) fails with an
+	// I/O error and writes nothing (a full disk, a failing device); later ones work again.
+	FailWrite int
 }
 
 // Flush completes the writes deferred while DeferWrites was set.
@@ -50,7 +54,9 @@ type Batch struct {
 	Meta      []byte
 }
 
-func NewMemStore() *MemStore { return &MemStore{CrashAfter: -1} }
+func NewMemStore() *MemStore { return &MemStore{CrashAfter: -1, FailWrite: -1} }
+
+var errIO = errors.New("store model: injected I/O error")
 
 func (s *MemStore) find(t storage.Table, key []byte) (int, bool) {
 	tab := s.Tables[t]
@@ -94,6 +100,13 @@ func (s *MemStore) Mutate(mutations []*storage.Mutation, metadata []byte) error 
 	if s.CrashAfter >= 0 && s.Mutates >= s.CrashAfter {
 		s.Mutates++
 		return nil
+	}
+	if s.FailWrite == 0 {
+		s.FailWrite = -1
+		return errIO
+	}
+	if s.FailWrite > 0 {
+		s.FailWrite--
 	}
 	if s.DeferWrites {
 		// the write is in flight: it becomes visible when Flush is called
